@@ -37,6 +37,23 @@ def cat(*shapes: S) -> S:
     return S(norm_atoms(atoms))
 
 
+def ite_shape(c, a: S, b: S) -> S:
+    """Ite on shapes with the common prefix and suffix factored out (keeps merged accumulators linear in size)"""
+    x, y = a.atoms, b.atoms
+    i = 0
+    while i < len(x) and i < len(y) and (x[i] is y[i] or x[i] == y[i]):
+        i += 1
+    j = 0
+    while j < len(x) - i and j < len(y) - i and (x[len(x) - 1 - j] is y[len(y) - 1 - j] or
+                                                   x[len(x) - 1 - j] == y[len(y) - 1 - j]):
+        j += 1
+    pre, suf = x[:i], x[len(x) - j:] if j else ()
+    ma, mb = x[i:len(x) - j], y[i:len(y) - j]
+    if not ma and not mb:
+        return S(pre + suf)
+    return S(norm_atoms(pre + (IteA(c, ma, mb),) + suf))
+
+
 class ExprMixin:
     # ------------------------------------------------------------------ truthiness / conversions
     def truth(self, v: V):
@@ -91,18 +108,7 @@ class ExprMixin:
         return z3.simplify(self.parts_len(parts) > 0)
 
     def shape_nonempty(self, s: S):
-        fs = []
-        for a in s.atoms:
-            if isinstance(a, Lit):
-                if a.s:
-                    return TRUE
-            elif isinstance(a, IteA):
-                fs.append(z3.If(a.c, self.shape_nonempty(S(a.a)), self.shape_nonempty(S(a.b))))
-            elif isinstance(a, QuoteA):
-                fs.append(z3.Or(self.shape_nonempty(S(a.inner)), self.truth(a.q)))
-            else:
-                fs.append(self.smt.atom("nonempty!" + repr(a)))
-        return disj(fs) if fs else FALSE
+        return z3.simplify(self.shape_len(s) > 0)
 
     def to_shape(self, v: V, fmt="str") -> S:
         """str(v) / format(v) as a shape"""
@@ -391,8 +397,17 @@ class ExprMixin:
         if isinstance(a, (B, K)) and isinstance(b, (B, K)) and all(
                 isinstance(x, B) or isinstance(x.v, bool) for x in (a, b)):
             return B(z3.simplify(z3.If(c, self.truth(a), self.truth(b))))
+        strsym = lambda v: isinstance(v, Sym) and v.tags == frozenset({"str"})
+        if isinstance(a, S) and strsym(b):
+            b = S((Dyn(b, "raw"),))
+        if isinstance(b, S) and strsym(a):
+            a = S((Dyn(a, "raw"),))
+        if isinstance(a, S) and isinstance(b, K) and isinstance(b.v, str):
+            b = lit(b.v)
+        if isinstance(b, S) and isinstance(a, K) and isinstance(a.v, str):
+            a = lit(a.v)
         if isinstance(a, S) and isinstance(b, S):
-            return S((IteA(c, a.atoms, b.atoms),))
+            return ite_shape(c, a, b)
         ia, ib = self.int_of(a), self.int_of(b)
         if ia is not None and ib is not None:
             return I(z3.If(c, ia, ib))
